@@ -690,13 +690,24 @@ def bloom_cell(body):
                     rest = term if rest is None else ("bin", "Add", rest, term)
             if base is not None:
                 offs = norm(rest) if rest is not None else ("const", 0, "usize")
+    unit = 8
+    if offs is None:
+        # the safe spelling: the cell is a whole word of the vector, `bitset[w]`, and the bit a shift inside it
+        for e in exprs:
+            for sub in subexprs(e):
+                if sub[0] == "call" and sub[1].rsplit("::", 1)[-1] in ("index", "index_mut", "get_unchecked", "get_unchecked_mut") and len(sub[2]) == 2 and mentions(sub[2][1], idx):
+                    w = norm(sub[2][1])
+                    if offs is None or offs == w:
+                        offs, base, unit = w, norm(sub[2][0]), 64
+    one = ("const", 1, "u8" if unit == 8 else "u64")
+    cell = (lambda x: is_call(x, "as_ptr") or is_call(x, "as_mut_ptr")) if unit == 8 else (lambda x: x[0] == "call" and x[1].rsplit("::", 1)[-1] in ("index", "index_mut", "get_unchecked", "get_unchecked_mut"))
     for e in exprs:
         for sub in subexprs(e):
-            if sub[0] == "bin" and sub[1] == "Shl" and sub[2] == ("const", 1, "u8") and mentions(sub[3], idx):
+            if sub[0] == "bin" and sub[1] == "Shl" and sub[2] == one and mentions(sub[3], idx):
                 bit = sub[3]
-            if sub[0] == "bin" and sub[1] == "Shr" and mentions(sub[3], idx) and any(is_call(x, "as_ptr") or is_call(x, "as_mut_ptr") for x in subexprs(sub[2])):
+            if sub[0] == "bin" and sub[1] == "Shr" and mentions(sub[3], idx) and any(cell(x) for x in subexprs(sub[2])):
                 bit = sub[3]
-    return offs, bit, base
+    return offs, bit, base, unit
 
 
 _FCONST = {"std::f64::consts::LN_2": math.log(2.0), "std::f64::consts::LN_10": math.log(10.0), "std::f64::consts::E": math.e, "std::f64::consts::PI": math.pi,
@@ -845,14 +856,14 @@ def check_C14(rep, fl):
     # ---- R14.2 / R14.3 set and is_set address the same bit; all idx bits matter ----------------
     st_ = facts.body(BLOOM + "::set")
     is_ = facts.body(BLOOM + "::is_set")
-    so, sb, sbase = bloom_cell(st_)
-    io, ib, ibase = bloom_cell(is_)
+    so, sb, sbase, sunit = bloom_cell(st_)
+    io, ib, ibase, iunit = bloom_cell(is_)
     if so is None or io is None or sb is None or ib is None:
         rep.missing("R14.2", fl, "Bloom::set / is_set: byte offset / bit expression not found (%s,%s,%s,%s)" % (so, sb, io, ib))
     else:
         bits = norm(F(V("self"), "bitset"))
-        rep.check(so == io and sb == ib and sbase == ibase == bits, "R14.2", fl, BLOOM, "set==is_set",
-                  "set and is_set address byte base+%s, bit %s" % (show(so), show(sb)),
+        rep.check(so == io and sb == ib and sbase == ibase == bits and sunit == iunit, "R14.2", fl, BLOOM, "set==is_set",
+                  "set and is_set address %s base+%s, bit %s" % ("byte" if sunit == 8 else "word", show(so), show(sb)),
                   "set addresses byte +%s bit %s, is_set addresses byte +%s bit %s" % (show(so), show(sb), show(io), show(ib)))
         idx = V("idx")
         for b, off, bit in ((st_, so, sb), (is_, io, ib)):
@@ -865,7 +876,8 @@ def check_C14(rep, fl):
         # injective on the low bits: the bit index must be idx & 7 and the offset must be a function of idx >> 3
         dbit = deps_union(bitdeps(sb, idx))
         doff = deps_union(bitdeps(so, idx))
-        rep.check(dbit == frozenset([0, 1, 2]) and not (doff & dbit), "R14.2", fl, st_, "byte/bit split", "bit = idx & 7, byte offset depends on idx >> 3 only",
+        lowbits = frozenset(range(3 if sunit == 8 else 6))
+        rep.check(dbit == lowbits and not (doff & dbit), "R14.2", fl, st_, "byte/bit split", "bit = idx & %d, %s offset depends on idx >> %d only" % (sunit - 1, "byte" if sunit == 8 else "word", len(lowbits)),
                   "bit index depends on idx bits %s, byte offset on %s" % (sorted(dbit), _ranges(sorted(doff))))
     # ---- R14.4 writers of bitset; reset/clear zero every word -----------------------------------
     writers = set()
@@ -976,7 +988,11 @@ def clamp_of(body, at, var):
 
 def check_bloom_sizing(rep, fl, set_off):
     """get_size yields (2^exp, exp) with exp >= 9; Bloom::new derives size mask, shift and the
-    word count from it; the byte offset computed by set() stays inside the allocation."""
+    word count from it; the byte / word offset computed by set() and is_set() stays inside the allocation."""
+    cells = {m: bloom_cell(fl.facts.body(BLOOM + "::" + m)) for m in ("set", "is_set")}
+    if any(c[0] is None for c in cells.values()):
+        rep.missing("R14.5", fl, "Bloom::set / is_set: the addressed cell (byte offset from as_ptr / word index into bitset) not found")
+        return
     facts = fl.facts
     gs = facts.body("bbloom::get_size")
     at, entry = dataflow(gs)
@@ -1089,11 +1105,13 @@ def check_bloom_sizing(rep, fl, set_off):
                 bad.append("exp=%d: shift is %d, not 64-exp" % (ex, shift))
             if nwords < 1 or nwords * 64 != (1 << ex):
                 bad.append("exp=%d: %d words allocated for 2^%d bits" % (ex, nwords, ex))
-            if set_off is not None:
-                # largest byte offset reachable: idx = mask (all ones; the offset is built from shifts and masks of idx)
-                off = eval_expr(set_off, {V("idx"): mask})
-                if off >= nwords * 8:
-                    bad.append("exp=%d: set() writes byte %d of a %d-byte allocation" % (ex, off, nwords * 8))
+            for meth_, (off_, _bit, _base, unit_) in sorted(cells.items()):
+                if off_ is None:
+                    continue
+                # largest offset reachable: idx = mask (all ones; the offset is built from shifts and masks of idx)
+                off = eval_expr(off_, {V("idx"): mask})
+                if off >= nwords * (8 if unit_ == 8 else 1):
+                    bad.append("exp=%d: %s() addresses %s %d of a %d-word allocation" % (ex, meth_, "byte" if unit_ == 8 else "word", off, nwords))
     except CannotEval as ex_:
         rep.bad("R14.5", fl, bn, "sizing", "unrecognised Bloom sizing expression: cannot fold %s" % ex_)
         return
